@@ -214,6 +214,9 @@ func repoOracles(r *Run, focus string, idx int, cfg repoCfg, steps []repoStep, w
 			served[o.Loc] = o
 			continue
 		}
+		if o.Kind == "restartcfg" {
+			cfg.Sig = o.Sig // what the oracles below judge by is the mode the process runs with now
+		}
 		cur, ok := parseRepoSnapshot(st.Obs)
 		if !ok {
 			cur = prev // racy snapshot (spawned background load): judged at the following tick
